@@ -56,6 +56,23 @@ def run (op : String) (a : Json) : Option (Except String Json) :=
           match parseRoot benv Γ (dCfg (field a "config")) c t with
           | .ok (v', w) => ok (jObj [("value", jVal v'), ("warnings", jNat w)])
           | .error e => jErr e
+  | "c11.field" => some do
+      let Γ ← dCtx (field a "ctx")
+      let var ← dVar (field a "var")
+      let host ← dStr (field a "host")
+      let ts ← dList dTree (field a "trees")
+      pure <| match fieldRoundtrip benv Γ {} (isDatatype Γ) var host ts with
+        | .ok t => ok (jTree t)
+        | .error e => jErr e
+  | "c11.mixed" => some do
+      let Γ ← dCtx (field a "ctx")
+      let var ← dVar (field a "var")
+      let host ← dStr (field a "host")
+      let text ← dOptStr (field a "text")
+      let ts ← dList dTree (field a "trees")
+      pure <| match mixedRoundtrip benv Γ {} (isDatatype Γ) var host text ts with
+        | .ok t => ok (jTree t)
+        | .error e => jErr e
   | "c11.norm" => some do
       let t ← dTree (field a "tree")
       pure <| ok (jTree (normTree tblEnv [] t))
